@@ -1,10 +1,26 @@
 import TmVerif.Proofs.IntSet
+import TmVerif.Proofs.SetClosureRun
 /-!
-C25 — Integer set algebra is exact (property theorems only).
-Universe: all of `Int` (finite and co-finite sets). Hypothesis `Sorted` is the representation
-invariant of `IntSet.Set` ("sorted"), decidable by `sortedB`; it is preserved by every operation.
+C25 — Integer set algebra and set-equation closure are exact (property theorems only).
+
+**Set algebra** (util/container/intset.go). Universe: all of `Int` (finite and co-finite sets).
+Hypothesis `Sorted` is the representation invariant of `IntSet.Set` ("sorted"), decidable by `sortedB`;
+it is preserved by every operation.
+
+**Closure** (util/set/closure.go, mirror `SetClosure.compute`, Model/SetClosure.lean). A system is a list
+of nodes `{op, edges, init}`; `wfB` is what the public API can build (edges are nodes, `Add` got a sorted
+slice, only `Add` nodes carry elements, a complement node has one edge). Vocabulary
+(Proofs/SetClosure.lean): `EqAt sys a v` — node `v` satisfies its equation under the assignment
+`a : Nat → Int → Prop` (union: `init ∪ ⋃ edges`, intersection: `⋂ edges`, ℤ when there is no edge,
+complement: ℤ minus its edge); `Sol sys a` — all nodes do; `(compute sys).asg` — the computed sets;
+`(compute sys).err` — the offending complement nodes (`Compute` returns an error iff non-empty);
+`(compute sys).timeout` — the mirror of `for { … }` in `slowClosure` ran out of its fuel
+`|component| · (mentioned elements + 1) + 1` (never observed; see `C25_closure_terminates_full`).
+`SmallOk`: `graph.Tarjan` does nothing below two vertices, so `Compute` leaves a one-node system as it
+was built — right for an `Add` node, wrong for a lone `Intersect()` (`C25_closure_single_inter`).
 -/
 namespace TmVerif.IntSet
+open TmVerif.SetClosure TmVerif.Graph
 
 theorem C25_mem_complement (a : IntSet) (v : Int) : a.complement.Mem v ↔ ¬ a.Mem v := by
   unfold IntSet.Mem IntSet.complement
@@ -92,5 +108,185 @@ theorem sorted_ext (a b : List Int) (ha : Sorted a) (hb : Sorted b)
 example : Sorted [1, 3, 5] ∧ Sorted [2, 3] := by simp [Sorted]
 example : (IntSet.merge ⟨true, [1, 3, 5]⟩ ⟨false, [3, 7]⟩) = ⟨true, [1, 5]⟩ := by
   simp [IntSet.merge, IntSet.empty, subtract]
+
+/-! ### set-equation closure -/
+
+/-- below two nodes `Compute` does nothing; that is only right when the node is an `Add` node -/
+def SmallOk (sys : Sys) : Prop := sys.length < 2 → ∀ v, opOf sys v = .union
+
+theorem compute_small {sys : Sys} (h : sys.length < 2) : compute sys = initSt sys := by
+  unfold compute runOn tarjanRun
+  rw [if_pos (by rw [graphOf_length]; exact h)]
+  rfl
+
+theorem compute_runOk {sys : Sys} (hwf : SetClosure.Wf sys) (h2 : 2 ≤ sys.length) :
+    RunOk sys (tarjanRun (graphOf sys)) (initSt sys) (compute sys) := by
+  have hL := (listing_tarjan hwf h2).1
+  apply run_spec hwf _ _ hL (by simp [initSt])
+  · intro v; rw [initSt_get]; exact hwf.sorted v
+  · intro c _ v _; exact initSt_get sys v
+
+/-- **No error reported ⇒ the computed assignment is a solution** of the whole system. -/
+theorem C25_closure_solution (sys : Sys) (hwf : SetClosure.wfB sys = true) (hs : SmallOk sys)
+    (herr : (compute sys).err = []) (htmo : (compute sys).timeout = false) :
+    Sol sys (compute sys).asg := by
+  have hwf := wf_of_wfB hwf
+  intro v hv
+  by_cases h2 : 2 ≤ sys.length
+  · obtain ⟨c, hc, hvc⟩ := (listing_tarjan hwf h2).2 v hv
+    exact ((compute_runOk hwf h2).good herr htmo c hc).1 v hvc
+  · have hsmall : sys.length < 2 := by omega
+    have hop := hs hsmall v
+    rw [compute_small hsmall, eqAt_union hop]
+    intro x
+    have hasg : ∀ u, (initSt sys).asg u x ↔ x ∈ initOf sys u := by
+      intro u; unfold St.asg; rw [initSt_get, mem_fresh]
+    rw [hasg v]
+    constructor
+    · exact fun h => .inl h
+    · rintro (h | ⟨w, hw, h⟩)
+      · exact h
+      · have hwl := hwf.edges v w hw
+        have : w = v := by omega
+        subst this
+        exact (hasg w).1 h
+
+/-- **Least, stratum by stratum.** Let `b` be any assignment that satisfies the equations of the
+strongly connected component of `v0` and agrees with the computed sets on the successors outside this
+component (the lower strata). Then the computed set of `v0` is contained in `b v0`.
+Inside a component nothing is complemented (no error), so the component's equations are monotone and
+"least" is meaningful; across components a complement turns "smaller below" into "larger above", which
+is why the comparison is relative to equal lower strata (`C25_closure_least_positive` is the global
+statement for systems without complement nodes). -/
+theorem C25_closure_least (sys : Sys) (hwf : SetClosure.wfB sys = true) (hs : SmallOk sys)
+    (herr : (compute sys).err = []) (htmo : (compute sys).timeout = false)
+    (b : Asg) (v0 : Nat) (hv0 : v0 < sys.length)
+    (hb : ∀ v, SC (graphOf sys) v0 v → EqAt sys b v)
+    (hlow : ∀ v w, SC (graphOf sys) v0 v → w ∈ edgesOf sys v → ¬ SC (graphOf sys) v0 w →
+      ∀ x, b w x ↔ (compute sys).asg w x) :
+    ∀ x, (compute sys).asg v0 x → b v0 x := by
+  have hwf := wf_of_wfB hwf
+  by_cases h2 : 2 ≤ sys.length
+  · obtain ⟨hL, hcov⟩ := listing_tarjan hwf h2
+    obtain ⟨c, hc, hvc⟩ := hcov v0 hv0
+    have hscc := hL.scc c hc v0 hvc
+    refine ((compute_runOk hwf h2).good herr htmo c hc).2 b (fun v hv => hb v ((hscc v).1 hv)) ?_ v0 hvc
+    intro v hv w hw hwc
+    have := hlow v w ((hscc v).1 hv) hw (fun h => hwc ((hscc w).2 h))
+    exact ⟨fun x hx => (this x).2 hx, fun _ x hx => (this x).1 hx⟩
+  · have hsmall : sys.length < 2 := by omega
+    have hop := hs hsmall v0
+    intro x hx
+    rw [compute_small hsmall] at hx
+    unfold St.asg at hx
+    rw [initSt_get, mem_fresh] at hx
+    exact ((eqAt_union hop).1 (hb v0 ⟨Reach.refl _ _, Reach.refl _ _⟩) x).2 (.inl hx)
+
+/-- **Least solution** of a system without complement nodes: contained in every solution. -/
+theorem C25_closure_least_positive (sys : Sys) (hwf : SetClosure.wfB sys = true) (hs : SmallOk sys)
+    (herr : (compute sys).err = []) (htmo : (compute sys).timeout = false)
+    (hpos : ∀ v, opOf sys v ≠ .compl) (b : Asg) (hb : Sol sys b) :
+    ∀ v, v < sys.length → ∀ x, (compute sys).asg v x → b v x := by
+  have hwf := wf_of_wfB hwf
+  by_cases h2 : 2 ≤ sys.length
+  · obtain ⟨hL, hcov⟩ := listing_tarjan hwf h2
+    have R := compute_runOk hwf h2
+    have hord := tarjan_correct hwf.graph (by rw [graphOf_length]; exact h2)
+    rw [← tarjanRun_comps] at hord
+    generalize tarjanRun (graphOf sys) = cs at hL hcov R hord
+    have key : ∀ i (hi : i < cs.length), ∀ v ∈ cs[i].1, ∀ x, (compute sys).asg v x → b v x := by
+      intro i
+      induction i using Nat.strongRecOn with
+      | _ i ih =>
+        intro hi v hv x hx
+        have hci : cs[i] ∈ cs := List.getElem_mem hi
+        refine (R.good herr htmo cs[i] hci).2 b (fun u hu => hb u (hL.lt _ hci u hu)) ?_ v hv x hx
+        intro u hu w hw hwc
+        refine ⟨fun y hy => ?_, fun hop => absurd hop (hpos u)⟩
+        obtain ⟨c', hc', hwc'⟩ := hcov w (hwf.edges u w hw)
+        obtain ⟨j, hj, rfl⟩ := List.getElem_of_mem hc'
+        have hle := hord.order i j (by simpa using hi) (by simpa using hj) u w (by simpa using hu)
+          (by simpa using hwc') (Reach.edge hw)
+        have hne : j ≠ i := by
+          intro e; subst e; exact hwc hwc'
+        exact ih j (by omega) hj w hwc' y hy
+    intro v hv x hx
+    obtain ⟨c, hc, hvc⟩ := hcov v hv
+    obtain ⟨i, hi, rfl⟩ := List.getElem_of_mem hc
+    exact key i hi v hvc x hx
+  · have hsmall : sys.length < 2 := by omega
+    intro v hv x hx
+    rw [compute_small hsmall] at hx
+    unfold St.asg at hx
+    rw [initSt_get, mem_fresh] at hx
+    exact ((eqAt_union (hs hsmall v)).1 (hb v hv) x).2 (.inl hx)
+
+/-- **An error is reported exactly when some complement node reaches itself.** -/
+theorem C25_closure_error_iff (sys : Sys) (hwf : SetClosure.wfB sys = true) (hs : SmallOk sys) :
+    (compute sys).err ≠ [] ↔
+      ∃ v, v < sys.length ∧ opOf sys v = .compl ∧ Relation.TransGen (Edge (graphOf sys)) v v := by
+  have hwf := wf_of_wfB hwf
+  by_cases h2 : 2 ≤ sys.length
+  · obtain ⟨hL, hcov⟩ := listing_tarjan hwf h2
+    have R := compute_runOk hwf h2
+    constructor
+    · intro hne
+      obtain ⟨extra, h1, h2'⟩ := R.err
+      have : extra ≠ [] := by
+        intro h; rw [h] at h1; exact hne (by simpa [initSt] using h1)
+      obtain ⟨e, he⟩ := List.exists_mem_of_ne_nil _ this
+      obtain ⟨c, hc, hec, hop, w, hw, hws⟩ := h2' e he
+      have hwc : w ∈ c.1 := (hL.snap c hc e hec w hw).1 hws
+      have hsc := (hL.scc c hc e hec w).1 hwc
+      refine ⟨e, hL.lt c hc e hec, hop, ?_⟩
+      rcases hsc.2 with rfl | p
+      · exact .single hw
+      · exact transGen_head hw p
+    · rintro ⟨v, hv, hop, p⟩
+      obtain ⟨c, hc, hvc⟩ := hcov v hv
+      obtain ⟨w, hvw, hwv⟩ := transGen_head_cases p
+      have hwc : w ∈ c.1 := (hL.scc c hc v hvc w).2 ⟨Reach.edge hvw, hwv⟩
+      exact R.offend ⟨c, hc, v, hvc, hop, w, hvw, (hL.snap c hc v hvc w hvw).2 hwc⟩
+  · have hsmall : sys.length < 2 := by omega
+    rw [compute_small hsmall]
+    constructor
+    · intro h; exact absurd rfl h
+    · rintro ⟨v, _, hop, _⟩
+      rw [hs hsmall v] at hop; cases hop
+
+/-- Why `SmallOk` is needed: a closure that consists of `Intersect()` alone is left untouched by
+`Compute` (nothing happens below two nodes), although the intersection of no sets is everything — which
+is what the same node evaluates to in any larger system. -/
+theorem C25_closure_single_inter :
+    SetClosure.wfB [⟨.inter, [], []⟩] = true ∧ (compute [⟨.inter, [], []⟩]).err = [] ∧
+    ¬ Sol [⟨.inter, [], []⟩] (compute [⟨.inter, [], []⟩]).asg ∧
+    (compute [⟨.inter, [], []⟩, ⟨.union, [], []⟩]).get 0 = ⟨true, []⟩ := by
+  refine ⟨by decide, by decide, ?_, by decide⟩
+  intro h
+  have := h 0 (by decide)
+  rw [eqAt_inter (by decide)] at this
+  have := (this 0).2 (by intro w hw; simp [edgesOf, succs, graphOf] at hw)
+  have h0 : ¬ ((compute [⟨.inter, [], []⟩]).get 0).Mem 0 := by decide
+  exact h0 this
+
+/-- The mirror's loop always converges within its fuel. NOT proved (every dirty pass strictly enlarges
+one of the component's sets inside the finite universe "mentioned elements + one point for the rest";
+the counting argument is not formalised); the driver reports `timeout` and the check compares it with
+the terminating real code on every case, so a counterexample would show up as a disagreement. -/
+def C25_closure_terminates_full : Prop :=
+  ∀ sys : Sys, SetClosure.wfB sys = true → (compute sys).timeout = false
+
+-- non-vacuity: systems that meet the hypotheses, with and without cycles, intersections, complements
+example : SetClosure.wfB [⟨.union, [1], [1, 2]⟩, ⟨.union, [0, 2], [5]⟩, ⟨.inter, [0, 1], []⟩, ⟨.compl, [2], []⟩] = true := by decide
+example : (compute [⟨.union, [1], [1, 2]⟩, ⟨.union, [0, 2], [5]⟩, ⟨.inter, [0, 1], []⟩, ⟨.compl, [2], []⟩]).err = [] ∧
+    (compute [⟨.union, [1], [1, 2]⟩, ⟨.union, [0, 2], [5]⟩, ⟨.inter, [0, 1], []⟩, ⟨.compl, [2], []⟩]).timeout = false ∧
+    (compute [⟨.union, [1], [1, 2]⟩, ⟨.union, [0, 2], [5]⟩, ⟨.inter, [0, 1], []⟩, ⟨.compl, [2], []⟩]).sets =
+      [⟨false, [1, 2, 5]⟩, ⟨false, [1, 2, 5]⟩, ⟨false, [1, 2, 5]⟩, ⟨true, [1, 2, 5]⟩] := by decide +kernel
+example : SmallOk [⟨.union, [0], [3]⟩] := fun _ v => by
+  cases v <;> simp [opOf]
+-- an error: A = Add{1} ∪ C, C = ~A
+example : (compute [⟨.union, [1], [1]⟩, ⟨.compl, [0], []⟩]).err = [1] := by decide
+example : Relation.TransGen (Edge (graphOf [⟨.union, [1], [1]⟩, ⟨.compl, [0], []⟩])) 1 1 :=
+  .tail (b := 0) (.single (show Edge _ 1 0 by simp [Edge, succs, graphOf])) (show Edge _ 0 1 by simp [Edge, succs, graphOf])
 
 end TmVerif.IntSet
